@@ -339,6 +339,8 @@ func drive[K comparable](c skipCase, r *pb.Rec, a api[K], keyOf func(int) K, les
 		return ks
 	}
 	wrote, inserts, removedPresent, absentStart := false, 0, false, false
+	var heldKeys []K
+	heldKeysCopy := ""
 	// expect compares an enumeration (with early stop at index stop) with the expected key list
 	enum := func(name string, want []int, stop int, call func(f func(K, int) bool)) error {
 		var got []K
@@ -467,6 +469,10 @@ func drive[K comparable](c skipCase, r *pb.Rec, a api[K], keyOf func(int) K, les
 		case opKeysValues:
 			ks := sorted()
 			gk, gv := a.Keys(), a.Values()
+			if heldKeys != nil && fmt.Sprint(heldKeys) != heldKeysCopy {
+				return fail("a slice returned by an earlier Keys() call changed to %v (was %s)", heldKeys, heldKeysCopy)
+			}
+			heldKeys, heldKeysCopy = gk, fmt.Sprint(gk)
 			if len(gk) != len(ks) || len(gv) != len(ks) {
 				return fail("Keys/Values lengths %d/%d want %d", len(gk), len(gv), len(ks))
 			}
